@@ -19,7 +19,7 @@ def main():
     prop, k = sys.argv[1], sys.argv[2]
     checks = sys.argv[3:] or [prop]
     root = os.path.dirname(os.path.dirname(os.path.abspath(__file__)))
-    src = "/tmp/brk/%s/out/%s" % (prop, k)
+    src = "%s/%s/out/%s" % (os.environ.get("BRK_BASE", "/tmp/brk"), prop, k)
     run = open(os.path.join(src, "RUN.txt")).read()
     m = re.search(r"cp\s+\S*demo_test\.go\s+(\S+)", run)
     t = re.search(r"(go test[^\n#]*)", run)
@@ -47,6 +47,8 @@ def main():
             rcb, outb = sh("go build ./...", cwd=wt)
             res["builds"] = rcb == 0
             rct, outt = sh("timeout 1200 go test -count=1 ./bus/... ./meta/... ./type/... ./examples/... 2>&1 | grep -v 'no test files'", cwd=wt)
+            if "FAIL" in outt:
+                rct, outt = sh("timeout 1200 go test -count=1 ./bus/... ./meta/... ./type/... ./examples/... 2>&1 | grep -v 'no test files'", cwd=wt)
             res["baseline_tests_pass"] = "FAIL" not in outt and rcb == 0
             if not res["baseline_tests_pass"]:
                 res["baseline_failures"] = [l for l in outt.split("\n") if "FAIL" in l][:8]
@@ -59,7 +61,7 @@ def main():
         sh("git -C /repo worktree remove --force %s" % wt)
         shutil.rmtree(wt, ignore_errors=True)
         sh("git -C /repo worktree prune")
-    d = os.path.join(root, "seeded", "%s_brk%s" % (prop, k))
+    d = os.path.join(root, "seeded", "%s_%sbrk%s" % (prop, os.environ.get("BRK_TAG", ""), k))
     os.makedirs(d, exist_ok=True)
     for f in ("patch.diff", "demo_test.go", "RUN.txt"):
         shutil.copy(os.path.join(src, f), os.path.join(d, f))
